@@ -273,7 +273,14 @@ ExplainK(k, B, vs, rv, op, res, idx, list) ==
                  IN [ok |-> TRUE, dev |-> SelectSeq(AsBuiltSeq, LAMBDA d : d \in D), p |-> Predict(D, vs, rv, op)]
   ELSE IF k >= Cardinality(B) THEN [ok |-> FALSE, dev |-> <<>>, p |-> Predict(B, vs, rv, op)]
   ELSE ExplainK(k + 1, B, vs, rv, op, res, idx, list)
-Explain(B, vs, rv, op, res, idx, list) == ExplainK(0, B, vs, rv, op, res, idx, list)
+\* `dev` is the smallest explaining subset (the finding signature); the transaction that is remembered for the
+\* new version (`p.t`) is the one the believed design B builds whenever B explains the step as well: two designs
+\* can publish the same list from different transactions (a trim built with TrimRemovesLatest removes a generation
+\* that an earlier trim already removed; the intended trim removes nothing), and later conflict checks read the
+\* transaction, not the list
+Explain(B, vs, rv, op, res, idx, list) ==
+  LET m == ExplainK(0, B, vs, rv, op, res, idx, list) IN
+  IF m.ok /\ Matches(B, vs, rv, op, res, idx, list) THEN [m EXCEPT !.p = Predict(B, vs, rv, op)] ELSE m
 
 \* Finding signatures of a whole history built with deviations B: <<invariant, deviations>> for every newly
 \* broken invariant of every version; a violating commit that needed no deviation itself inherits those of
